@@ -5,6 +5,8 @@ import ZapVerif.Proofs.CoreSync
 import ZapVerif.Proofs.TransCores
 import ZapVerif.Model.TransCEAddX
 import ZapVerif.Proofs.TransLogger
+import ZapVerif.Proofs.TransCtor
+import ZapVerif.Proofs.TransLevel
 /-! # C05 — an entry is written exactly where its level is enabled; reported levels agree
 
 All theorems are about the core algebra of `Model/Core.lean` (arbitrary trees, arbitrary — also non-monotone —
@@ -513,5 +515,289 @@ theorem Sugar_logln_guard_matches_source (P : TransLogger.Par) (l : Int) (args c
   show (exec (TransLogger.X P) (fuel + 1) Sugar_logln_body ⟨[("p0", .int l), ("p1", args), ("p2", ctx)], _⟩).fin = _
   rw [exec_succ]
   by_cases h3 : l < 3 <;> cases hc : P.cen (.list []) l <;> simp [Sugar_logln_body, sugarSpec, h3, hc, nm_fcw]
+
+end ZapVerif.C05
+
+/-! # the constructors of the core tree and `LevelOf` ARE the source (translator round 4, tables `Gen.TransCtor`, `Gen.TransLevel`)
+
+zapcore/increase_level.go `NewIncreaseLevelCore`, `levelFilterCore.Level`; zapcore/tee.go `NewTee`, `multiCore.Level`;
+zapcore/level.go `LevelOf`, translated mechanically, are interpreted with `Enabled` of a core / an enabler, the
+`leveledEnabler` assertion and `Level()` as parameters.  They are the model functions the C05 theorems are stated over:
+`incrBad_is_incrValid` (`Cores.incrValid` / `mkIncr`), `NewTee_is_mkTee` (`Cores.mkTee`), `multiCore_Level_is_levelOfAll`
+(`Cores.levelOfAll`, the repaired one that starts from `InvalidLevel`), `levelOfSpec_is_leastValid` (`Cores.leastValid`). -/
+set_option linter.unusedSimpArgs false
+namespace ZapVerif.C05
+open ZapVerif ZapVerif.GoMini ZapVerif.TransCtor ZapVerif.Gen.TransCtor
+
+/-- the levels `NewIncreaseLevelCore` scans, in its order (Fatal first) -/
+def scanLevels : List Int := [5, 4, 3, 2, 1, 0, -1]
+
+/-- the first scanned level the new enabler allows but the core does not -/
+def incrBad (P : Par) (core level : Val) : Option Int := scanLevels.find? fun l => !P.cen core l && P.en level l
+
+def incrErr (l : Int) : Val :=
+  errV "fmt.Errorf" [.bytes [105, 110, 118, 97, 108, 105, 100, 32, 105, 110, 99, 114, 101, 97, 115, 101, 32, 108, 101, 118, 101, 108, 44, 32, 97, 115, 32, 108, 101, 118, 101, 108, 32, 37, 113, 32, 105, 115, 32, 97, 108, 108, 111, 119, 101, 100, 32, 98, 121, 32, 105, 110, 99, 114, 101, 97, 115, 101, 100, 32, 108, 101, 118, 101, 108, 44, 32, 98, 117, 116, 32, 110, 111, 116, 32, 98, 121, 32, 101, 120, 105, 115, 116, 105, 110, 103, 32, 99, 111, 114, 101], .int l]
+
+/-- one iteration of the validation scan -/
+theorem NewIncreaseLevelCore_iter_matches_source (P : Par) (core level : Val) (l : Int) (h1 : -1 ≤ l) (h2 : l ≤ 5) (fl : Env) (fuel : Nat) :
+    execS (X P) (exec (X P) (fuel + 1)) NewIncreaseLevelCore_loop0 ⟨[("p0", core), ("p1", level), ("l0", .int l)], fl⟩ =
+      if (!P.cen core l && P.en level l) then .ret [.list [], incrErr l] ⟨[("p0", core), ("p1", level), ("l0", .int l)], fl⟩
+      else execS (X P) (exec (X P) fuel) NewIncreaseLevelCore_loop0 ⟨[("p0", core), ("p1", level), ("l0", .int (l - 1))], fl⟩ := by
+  have hw : wrap .i8 (l - 1) = l - 1 := by simp only [wrap]; omega
+  unfold NewIncreaseLevelCore_loop0
+  rw [execS_loop]
+  cases hc : P.cen core l <;> cases he : P.en level l <;> simp [h1, hc, he, hw, exec_succ, incrErr]
+
+theorem NewIncreaseLevelCore_end_matches_source (P : Par) (core level : Val) (fl : Env) (fuel : Nat) :
+    execS (X P) (exec (X P) fuel) NewIncreaseLevelCore_loop0 ⟨[("p0", core), ("p1", level), ("l0", .int (-2))], fl⟩ =
+      .normal ⟨[("p0", core), ("p1", level), ("l0", .int (-2))], fl⟩ := by
+  unfold NewIncreaseLevelCore_loop0
+  rw [execS_loop]
+  simp
+
+/-- `NewIncreaseLevelCore`: every level from Fatal down to Debug is asked of BOTH; the first one the new enabler allows
+    and the core does not is refused with an error naming it and NO core; otherwise the filter over exactly
+    (core, level) -/
+theorem NewIncreaseLevelCore_matches_source (P : Par) (core level : Val) (fl : Env) (fuel : Nat) :
+    run (X P) (fuel + 8) "NewIncreaseLevelCore" [core, level] fl =
+      .done (match incrBad P core level with
+        | some l => [.list [], incrErr l]
+        | none => [.list [.list [core, level]], .list []]) fl := by
+  apply run_of_fin (X P) _ _ Gen.TransCtor.NewIncreaseLevelCore [core, level] _ _ _ rfl rfl
+  rw [exec_succ]
+  have hloop : execS (X P) (exec (X P) (fuel + 7)) NewIncreaseLevelCore_loop0 ⟨[("p0", core), ("p1", level), ("l0", .int 5)], fl⟩ =
+      match incrBad P core level with
+      | some l => .ret [.list [], incrErr l] ⟨[("p0", core), ("p1", level), ("l0", .int l)], fl⟩
+      | none => .normal ⟨[("p0", core), ("p1", level), ("l0", .int (-2))], fl⟩ := by
+    rw [show fuel + 7 = (fuel + 6) + 1 from rfl, NewIncreaseLevelCore_iter_matches_source P core level 5 (by omega) (by omega),
+      show fuel + 6 = (fuel + 5) + 1 from rfl, NewIncreaseLevelCore_iter_matches_source P core level (5 - 1) (by omega) (by omega),
+      show fuel + 5 = (fuel + 4) + 1 from rfl, NewIncreaseLevelCore_iter_matches_source P core level (5 - 1 - 1) (by omega) (by omega),
+      show fuel + 4 = (fuel + 3) + 1 from rfl, NewIncreaseLevelCore_iter_matches_source P core level (5 - 1 - 1 - 1) (by omega) (by omega),
+      show fuel + 3 = (fuel + 2) + 1 from rfl, NewIncreaseLevelCore_iter_matches_source P core level (5 - 1 - 1 - 1 - 1) (by omega) (by omega),
+      show fuel + 2 = (fuel + 1) + 1 from rfl, NewIncreaseLevelCore_iter_matches_source P core level (5 - 1 - 1 - 1 - 1 - 1) (by omega) (by omega),
+      NewIncreaseLevelCore_iter_matches_source P core level (5 - 1 - 1 - 1 - 1 - 1 - 1) (by omega) (by omega),
+      show (5 : Int) - 1 - 1 - 1 - 1 - 1 - 1 - 1 = -2 from rfl, NewIncreaseLevelCore_end_matches_source]
+    simp only [incrBad, scanLevels, List.find?, show (5 : Int) - 1 = 4 from rfl, show (4 : Int) - 1 = 3 from rfl,
+      show (3 : Int) - 1 = 2 from rfl, show (2 : Int) - 1 = 1 from rfl, show (1 : Int) - 1 = 0 from rfl, show (0 : Int) - 1 = -1 from rfl]
+    generalize (!P.cen core 5 && P.en level 5) = b5
+    generalize (!P.cen core 4 && P.en level 4) = b4
+    generalize (!P.cen core 3 && P.en level 3) = b3
+    generalize (!P.cen core 2 && P.en level 2) = b2
+    generalize (!P.cen core 1 && P.en level 1) = b1
+    generalize (!P.cen core 0 && P.en level 0) = b0
+    generalize (!P.cen core (-1) && P.en level (-1)) = bm
+    cases b5 <;> cases b4 <;> cases b3 <;> cases b2 <;> cases b1 <;> cases b0 <;> cases bm <;> rfl
+  simp [NewIncreaseLevelCore_body, hloop]
+  cases incrBad P core level <;> simp
+
+/-- accepted exactly when every level the new enabler allows is allowed by the core — `Cores.incrValid`, the function of
+    `mkIncr` the C05 theorems are stated over -/
+theorem incrBad_is_incrValid (P : Par) (core level : Val) :
+    (incrBad P core level).isNone = Cores.validLevels.all fun l => !(P.en level l) || P.cen core l := by
+  rw [Bool.eq_iff_iff]
+  simp only [Option.isNone_iff_eq_none, incrBad, List.find?_eq_none, List.all_eq_true]
+  constructor
+  · intro h l hl
+    have := h l (by simp only [scanLevels, Cores.validLevels, List.mem_cons, List.not_mem_nil, or_false] at hl ⊢; rcases hl with rfl | rfl | rfl | rfl | rfl | rfl | rfl <;> simp)
+    cases hc : P.cen core l <;> cases he : P.en level l <;> simp_all
+  · intro h l hl
+    have := h l (by simp only [scanLevels, Cores.validLevels, List.mem_cons, List.not_mem_nil, or_false] at hl ⊢; rcases hl with rfl | rfl | rfl | rfl | rfl | rfl | rfl <;> simp)
+    cases hc : P.cen core l <;> cases he : P.en level l <;> simp_all
+
+
+/-- `NewTee`: no core — the no-op core; ONE core — that core itself, unchanged; otherwise the tee of exactly the
+    given cores in order (`Cores.mkTee`) -/
+theorem NewTee_matches_source (P : Par) (cores : List Val) (fl : Env) (fuel : Nat) :
+    run (X P) (fuel + 1) "NewTee" [.list cores] fl =
+      .done [match cores with | [] => P.nop | [c] => c | cs => .list [.list cs]] fl := by
+  apply run_of_fin (X P) _ _ Gen.TransCtor.NewTee [.list cores] _ _ _ rfl rfl
+  rw [exec_succ]
+  cases cores with
+  | nil => simp [NewTee_body]
+  | cons c r =>
+    cases r with
+    | nil => simp [NewTee_body]
+    | cons d r' =>
+      have h0 : ¬ ((r'.length : Int) + 1 + 1 = 0) := by omega
+      have h1 : ¬ ((r'.length : Int) + 1 + 1 = 1) := by omega
+      simp [NewTee_body, h0, h1]
+
+/-- the translated `NewTee` on encoded cores is `Cores.mkTee` -/
+theorem NewTee_is_mkTee (P : Par) (enc : Cores.Core → GoMini.Val) (hnop : enc .nop = P.nop)
+    (htee : ∀ cs, enc (.tee cs) = .list [.list (cs.map enc)]) (cs : List Cores.Core) :
+    (match cs.map enc with | [] => P.nop | [c] => c | vs => GoMini.Val.list [.list vs]) = enc (Cores.mkTee cs) := by
+  cases cs with
+  | nil => simp [Cores.mkTee, hnop]
+  | cons c r =>
+    cases r with
+    | nil => simp [Cores.mkTee]
+    | cons d r' => simp [Cores.mkTee, htee]
+
+/-- `levelFilterCore.Level`: `LevelOf` of the FILTER's enabler (not of the wrapped core) -/
+theorem levelFilterCore_Level_matches_source (P : Par) (core level : Val) (fl0 : Env) (fuel : Nat) :
+    run (X P) (fuel + 1) "levelFilterCore_Level" [] (("core", core) :: ("level", level) :: fl0) =
+      .done [.int (P.levelOf level)] (("core", core) :: ("level", level) :: fl0) := by
+  apply run_of_fin (X P) _ _ Gen.TransCtor.levelFilterCore_Level [] _ _ _ rfl rfl
+  rw [exec_succ]; simp [levelFilterCore_Level_body]
+
+/-- `multiCore.Level`: the least `LevelOf` over the branches, starting from `InvalidLevel` (= 6): a tee that enables
+    nothing reports `InvalidLevel` (`Cores.levelOfAll`, the repaired one) -/
+theorem multiCore_Level_matches_source (P : Par) (mc : List Val) (fl0 : Env) (fuel : Nat) :
+    run (X P) (fuel + 1) "multiCore_Level" [] (("mc", .list mc) :: fl0) =
+      .done [.int (mc.foldl (fun m c => min m (P.levelOf c)) 6)] (("mc", .list mc) :: fl0) := by
+  apply run_of_fin (X P) _ _ Gen.TransCtor.multiCore_Level [] _ _ _ rfl rfl
+  rw [exec_succ]
+  show (execS (X P) (exec (X P) fuel) multiCore_Level_body ⟨[], ("mc", .list mc) :: fl0⟩).fin = _
+  have hloop : ∀ (ys : List Val) (i : Nat) (m : Int) (t : Option (Val × Val)), mc.drop i = ys →
+      ∃ t' : Option (Val × Val), rangeRun (execS (X P) (exec (X P) fuel) multiCore_Level_loop0.rbody) (.loc "l1") .blank ys i
+          ⟨[("l0", .int m)] ++ (match t with | some v => [("l1", v.1), ("l2", v.2)] | none => []), ("mc", .list mc) :: fl0⟩ =
+        .normal ⟨[("l0", .int (ys.foldl (fun m c => min m (P.levelOf c)) m))] ++
+          (match t' with | some v => [("l1", v.1), ("l2", v.2)] | none => []), ("mc", .list mc) :: fl0⟩ := by
+    intro ys
+    induction ys with
+    | nil => intro i m t _; exact ⟨t, by cases t <;> simp [rangeRun]⟩
+    | cons y r ih =>
+      intro i m t hd
+      have hi : i < mc.length := by
+        rcases Nat.lt_or_ge i mc.length with h | h
+        · exact h
+        · rw [List.drop_of_length_le h] at hd; cases hd
+      have hy : mc[i]? = some y := by
+        have := congrArg (fun l => l[0]?) hd; simpa using this
+      have hd' : mc.drop (i + 1) = r := by
+        have := congrArg (List.drop 1) hd; simpa [List.drop_drop, Nat.add_comm] using this
+      have hidx : indexVal (.list mc) (.int (i : Int)) = .ok y := by
+        rw [indexVal_list _ i hi]
+        simp [List.getElem?_eq_getElem hi] at hy
+        simp [hy]
+      obtain ⟨t', h⟩ := ih (i + 1) (min m (P.levelOf y)) (some (.int i, .int (P.levelOf y))) hd'
+      refine ⟨t', ?_⟩
+      by_cases hlt : P.levelOf y < m
+      · have hm : min m (P.levelOf y) = P.levelOf y := by omega
+        rw [hm] at h
+        cases t <;>
+          simpa [rangeRun, multiCore_Level_loop0, Stmt.rbody, State.assign1, Env.set, hidx, hlt, hm] using h
+      · have hm : min m (P.levelOf y) = m := by omega
+        rw [hm] at h
+        cases t <;>
+          simpa [rangeRun, multiCore_Level_loop0, Stmt.rbody, State.assign1, Env.set, hidx, hlt, hm] using h
+  obtain ⟨t', h⟩ := hloop mc 0 6 none (by simp)
+  have hL : multiCore_Level_loop0 = .range (.loc "l1") .blank (.fld "mc") multiCore_Level_loop0.rbody := rfl
+  have hb : multiCore_Level_body = .seq multiCore_Level_body.hd (.seq multiCore_Level_loop0 (.ret [.loc "l0"])) := rfl
+  have h0 : execS (X P) (exec (X P) fuel) multiCore_Level_body.hd ⟨[], ("mc", .list mc) :: fl0⟩ =
+      .normal ⟨[("l0", .int 6)], ("mc", .list mc) :: fl0⟩ := by
+    simp [multiCore_Level_body, Stmt.hd]
+  rw [hb, execS_seq, h0, Out.andThen_normal, execS_seq, hL, execS_range]
+  simp only [evalE_fld, Env.get, if_true, Res.out_ok]
+  simp only [List.append_nil] at h
+  rw [h]
+  cases t' <;> simp
+
+/-- … which is `Cores.levelOfAll` (min over the branches, `InvalidLevel` for none) when `LevelOf` of an encoded branch is
+    the model's `levelOf` -/
+theorem foldr_min_base (f : Cores.Core → Int) : ∀ (cs : List Cores.Core) (m a : Int),
+    cs.foldr (fun c r => min (f c) r) (min m a) = min a (cs.foldr (fun c r => min (f c) r) m)
+  | [], m, a => by simp [Int.min_comm]
+  | c :: cs, m, a => by simp only [List.foldr_cons, foldr_min_base f cs m a]; omega
+
+theorem foldl_min_foldr (f : Cores.Core → Int) : ∀ (cs : List Cores.Core) (m : Int),
+    cs.foldl (fun m c => min m (f c)) m = cs.foldr (fun c r => min (f c) r) m
+  | [], _ => rfl
+  | c :: cs, m => by simp only [List.foldl_cons, List.foldr_cons, foldl_min_foldr f cs (min m (f c)), foldr_min_base f cs m (f c)]
+
+theorem multiCore_Level_is_levelOfAll (σ : Cores.Store) (cs : List Cores.Core) :
+    cs.foldl (fun m c => min m (Cores.levelOf σ c)) 6 = Cores.levelOfAll σ cs := by
+  rw [foldl_min_foldr]
+  induction cs with
+  | nil => simp [Cores.levelOfAll, Cores.invalidL]
+  | cons c r ih => simp [Cores.levelOfAll, ih]
+
+end ZapVerif.C05
+
+namespace ZapVerif.C05
+open ZapVerif ZapVerif.GoMini ZapVerif.TransLevel ZapVerif.Gen.TransLevel
+
+/-- `LevelOf`: an enabler that knows its level is asked; otherwise the first of Debug … Fatal it enables, else
+    `InvalidLevel` (= 6) -/
+def levelOfSpec (P : Par) (e : Val) : Int :=
+  match P.asLeveled e with
+  | some lv => P.leveledLevel lv
+  | none =>
+    if P.enabled e (-1) then -1 else if P.enabled e 0 then 0 else if P.enabled e 1 then 1 else if P.enabled e 2 then 2
+    else if P.enabled e 3 then 3 else if P.enabled e 4 then 4 else if P.enabled e 5 then 5 else 6
+
+/-- one iteration of the scan: return `l` if enabled, else go on with `l + 1` -/
+theorem LevelOf_iter_matches_source (P : Par) (e v0 : Val) (l : Int) (h1 : -1 ≤ l) (h2 : l ≤ 5) (fl : Env) (fuel : Nat) :
+    execS (X P) (exec (X P) (fuel + 1)) LevelOf_loop0 ⟨[("p0", e), ("l0", v0), ("l1", .bool false), ("l2", .int l)], fl⟩ =
+      if P.enabled e l then .ret [.int l] ⟨[("p0", e), ("l0", v0), ("l1", .bool false), ("l2", .int l)], fl⟩
+      else execS (X P) (exec (X P) fuel) LevelOf_loop0 ⟨[("p0", e), ("l0", v0), ("l1", .bool false), ("l2", .int (l + 1))], fl⟩ := by
+  have hw : wrap .i8 (l + 1) = l + 1 := by simp only [wrap]; omega
+  unfold LevelOf_loop0
+  rw [execS_loop]
+  cases he : P.enabled e l
+  · simp [h2, he, hw, exec_succ]
+  · simp [h2, he]
+
+theorem LevelOf_end_matches_source (P : Par) (e v0 : Val) (fl : Env) (fuel : Nat) :
+    execS (X P) (exec (X P) fuel) LevelOf_loop0 ⟨[("p0", e), ("l0", v0), ("l1", .bool false), ("l2", .int 6)], fl⟩ =
+      .normal ⟨[("p0", e), ("l0", v0), ("l1", .bool false), ("l2", .int 6)], fl⟩ := by
+  unfold LevelOf_loop0
+  rw [execS_loop]
+  simp
+
+/-- the whole scan from Debug: seven iterations at most -/
+theorem LevelOf_loop_matches_source (P : Par) (e v0 : Val) (fl : Env) (fuel : Nat) :
+    execS (X P) (exec (X P) (fuel + 7)) LevelOf_loop0 ⟨[("p0", e), ("l0", v0), ("l1", .bool false), ("l2", .int (-1))], fl⟩ =
+      if P.enabled e (-1) then .ret [.int (-1)] ⟨[("p0", e), ("l0", v0), ("l1", .bool false), ("l2", .int (-1))], fl⟩
+      else if P.enabled e 0 then .ret [.int 0] ⟨[("p0", e), ("l0", v0), ("l1", .bool false), ("l2", .int 0)], fl⟩
+      else if P.enabled e 1 then .ret [.int 1] ⟨[("p0", e), ("l0", v0), ("l1", .bool false), ("l2", .int 1)], fl⟩
+      else if P.enabled e 2 then .ret [.int 2] ⟨[("p0", e), ("l0", v0), ("l1", .bool false), ("l2", .int 2)], fl⟩
+      else if P.enabled e 3 then .ret [.int 3] ⟨[("p0", e), ("l0", v0), ("l1", .bool false), ("l2", .int 3)], fl⟩
+      else if P.enabled e 4 then .ret [.int 4] ⟨[("p0", e), ("l0", v0), ("l1", .bool false), ("l2", .int 4)], fl⟩
+      else if P.enabled e 5 then .ret [.int 5] ⟨[("p0", e), ("l0", v0), ("l1", .bool false), ("l2", .int 5)], fl⟩
+      else .normal ⟨[("p0", e), ("l0", v0), ("l1", .bool false), ("l2", .int 6)], fl⟩ := by
+  rw [show fuel + 7 = (fuel + 6) + 1 from rfl, LevelOf_iter_matches_source P e v0 (-1) (by omega) (by omega),
+    show fuel + 6 = (fuel + 5) + 1 from rfl, LevelOf_iter_matches_source P e v0 (-1 + 1) (by omega) (by omega),
+    show fuel + 5 = (fuel + 4) + 1 from rfl, LevelOf_iter_matches_source P e v0 (-1 + 1 + 1) (by omega) (by omega),
+    show fuel + 4 = (fuel + 3) + 1 from rfl, LevelOf_iter_matches_source P e v0 (-1 + 1 + 1 + 1) (by omega) (by omega),
+    show fuel + 3 = (fuel + 2) + 1 from rfl, LevelOf_iter_matches_source P e v0 (-1 + 1 + 1 + 1 + 1) (by omega) (by omega),
+    show fuel + 2 = (fuel + 1) + 1 from rfl, LevelOf_iter_matches_source P e v0 (-1 + 1 + 1 + 1 + 1 + 1) (by omega) (by omega),
+    LevelOf_iter_matches_source P e v0 (-1 + 1 + 1 + 1 + 1 + 1 + 1) (by omega) (by omega),
+    show (-1 : Int) + 1 + 1 + 1 + 1 + 1 + 1 + 1 = 6 from rfl, LevelOf_end_matches_source]
+  rfl
+
+theorem LevelOf_matches_source (P : Par) (e : Val) (fl : Env) (fuel : Nat) :
+    run (X P) (fuel + 8) "LevelOf" [e] fl = .done [.int (levelOfSpec P e)] fl := by
+  apply run_of_fin (X P) _ _ Gen.TransLevel.LevelOf [e] _ _ _ rfl rfl
+  rw [exec_succ]
+  unfold levelOfSpec
+  cases ha : P.asLeveled e with
+  | some lv => simp [LevelOf_body, ha]
+  | none =>
+    simp [LevelOf_body, ha, LevelOf_loop_matches_source]
+    by_cases e1 : P.enabled e (-1) = true
+    · simp [e1]
+    by_cases e2 : P.enabled e 0 = true
+    · simp [e1, e2]
+    by_cases e3 : P.enabled e 1 = true
+    · simp [e1, e2, e3]
+    by_cases e4 : P.enabled e 2 = true
+    · simp [e1, e2, e3, e4]
+    by_cases e5 : P.enabled e 3 = true
+    · simp [e1, e2, e3, e4, e5]
+    by_cases e6 : P.enabled e 4 = true
+    · simp [e1, e2, e3, e4, e5, e6]
+    by_cases e7 : P.enabled e 5 = true
+    · simp [e1, e2, e3, e4, e5, e6, e7]
+    simp [e1, e2, e3, e4, e5, e6, e7]
+
+
+/-- the scan of the translated `LevelOf` (no `Level()` method) is `Cores.leastValid`: the first of Debug … Fatal that is
+    enabled, else `InvalidLevel` -/
+theorem levelOfSpec_is_leastValid (P : Par) (e : Val) (h : P.asLeveled e = none) :
+    levelOfSpec P e = Cores.leastValid (P.enabled e) := by
+  simp only [levelOfSpec, h, Cores.leastValid, Cores.validLevels, Cores.invalidL, List.find?]
+  cases P.enabled e (-1) <;> cases P.enabled e 0 <;> cases P.enabled e 1 <;> cases P.enabled e 2 <;> cases P.enabled e 3 <;>
+    cases P.enabled e 4 <;> cases P.enabled e 5 <;> rfl
 
 end ZapVerif.C05
